@@ -221,14 +221,30 @@ def generate(rng, opts):
                     files[f"{top}.py"] = _body("py", f"sp{sp}/{top}.py")
         if rng.random() < cfg["p_noise"]:
             files["README.txt"] = "top\n"
+        if rng.random() < cfg["p_noise"] * 0.3:
+            files["notes.pth/README.txt"] = "a directory named like a path configuration file\n"
         if cfg["stubs_pkg"] and rng.random() < 0.6:
             # a separate <top>-stubs package (PEP 561), used when the package is loaded with find_stubs_package=True
             for top in tops:
+                if rng.random() < 0.12:
+                    # not a stubs package at all, only named like one: a stray module, or a directory with runtime code
+                    if rng.random() < 0.5:
+                        files[f"{top}-stubs.py"] = _body("py", f"sp{sp}/{top}-stubs.py")
+                    else:
+                        files[f"{top}-stubs/__init__.py"] = _body("py", f"sp{sp}/{top}-stubs/__init__.py")
+                    continue
                 if rng.random() < 0.7 and f"{top}/__init__.py" in files:
                     files[f"{top}-stubs/__init__.pyi"] = _body("pyi", f"sp{sp}/{top}-stubs/__init__.pyi")
                     for child in rng.sample(SUB_NAMES, rng.choice([0, 1, 2])):
                         files[f"{top}-stubs/{child}.pyi"] = _body("pyi", f"sp{sp}/{top}-stubs/{child}.pyi")
         dirs.append(files)
+    if rng.random() < 0.12:
+        # sources saved with a UTF-8 byte order mark (Windows editors do that; CPython reads them like any other source)
+        for files in dirs:
+            for rel, content in list(files.items()):
+                if isinstance(content, str) and rel.endswith((".py", ".pyi")) and content and rng.random() < 0.4:
+                    files[rel] = "\ufeff" + content
+        cfg["bom"] = True
     n_listed = n_sp
     if two_pth:
         # the last two directories are reachable only through .pth files, placed in any listed directory under any
@@ -245,7 +261,8 @@ def generate(rng, opts):
             fname = rng.choice(["a.pth", "extra.pth", "zz.pth", "B.pth", "_x.pth"])
             prev = dirs[holder].get(fname, rng.choice(["", "# comment\n", "\n"]))
             # (hand-edited files carry trailing blanks, Windows line ends: `site` strips the right-hand side of a line)
-            dirs[holder][fname] = prev + f"<SP{u}>" + rng.choice(["", "", " ", " \t", "\r"]) + "\n" + rng.choice(["", "<ROOT>/does-not-exist\n"])
+            # (a line may be relative: `site` joins it with the directory of the .pth file - easy-install.pth has `./x.egg`)
+            dirs[holder][fname] = prev + rng.choice([f"<SP{u}>"] * 5 + [f"<RELSP{u}>"]) + rng.choice(["", "", " ", " \t", "\r"]) + "\n" + rng.choice(["", "<ROOT>/does-not-exist\n"])
         cfg["pth_flavor"] = "plain-two"
     elif rng.random() < 0.2 and n_sp >= 2:
         # the last directory is reachable only through a .pth file in the first one
@@ -254,7 +271,7 @@ def generate(rng, opts):
         regular_tops = [t for t in tops if f"{t}/__init__.py" in dirs[last] and "extend_path" not in dirs[last][f"{t}/__init__.py"] and "declare_namespace" not in dirs[last][f"{t}/__init__.py"]]
         flavor = rng.choice(["plain", "plain", "editables", "scikit", "setuptools"]) if regular_tops else "plain"
         if flavor == "plain":
-            lines = ["# comment", "", f"<SP{last}>" + rng.choice(["", "", " ", "\t ", "\r"]), "<ROOT>/does-not-exist"]
+            lines = ["# comment", "", rng.choice([f"<SP{last}>"] * 5 + [f"<RELSP{last}>"]) + rng.choice(["", "", " ", "\t ", "\r"]), "<ROOT>/does-not-exist"]
             rng.shuffle(lines)
             dirs[0]["extra.pth"] = "\n".join(lines) + "\n"
         else:
@@ -276,8 +293,17 @@ def generate(rng, opts):
     schedules = [modes[0]] + rng.sample(modes[1:], rng.choice([2, 3, 4]))
     loads = []
     target = rng.choice(tops)
+    if rng.random() < 0.06:
+        # the requested package is a symbolic link to a package directory of the same search path (`lnk -> pkg`)
+        holders = [i for i in range(n_listed) if any(rel.startswith(target + "/") for rel in dirs[i])]
+        if holders:
+            dirs[holders[0]]["lnk"] = {"symlink": target}
+            target = "lnk"
+            cfg["top_symlink"] = True
     for sched in schedules:
         forms = ["name"] + rng.sample(["path", "strpath", "relstr"], rng.choice([0, 1, 1, 2]))
+        if any(target in files and isinstance(files[target], str) for files in dirs):
+            forms.append("cwdfile")
         for form in forms:
             loads.append({"schedule": sched, "form": form})
     outside = None
@@ -583,6 +609,8 @@ def conflict_tags(dirs, dotted):
             tags.add("module-and-directory-same-name" if i > 1 else "top-level-module-and-directory")
         if sum(1 for _, k in occ if k in ("pyi", "initpyi")) > 1:
             tags.add("two-stub-files-for-one-module")
+    if any(isinstance(c, str) and "<RELSP" in c for files in dirs for rel, c in files.items() if rel.endswith(".pth")):
+        tags.add("relative-pth-line")
     return sorted(tags)
 
 
@@ -602,7 +630,7 @@ def _pth_additions(dirs, order, sp_dirs):
                 if line.startswith("import "):
                     body = files.get(line[len("import "):].strip() + ".py")
                     src = body if isinstance(body, str) else ""
-                for k in re.findall(r"<SP(\d+)>", src):
+                for k in re.findall(r"<(?:REL)?SP(\d+)>", src):
                     d = sp_dirs[int(k)] if int(k) < len(sp_dirs) else None
                     if d is not None and d not in out:
                         out.append(d)
@@ -615,6 +643,9 @@ def execute(plan, ctx):
 
     world = plan["world"]
     tags = []
+    if any(isinstance(c, str) and "<RELSP" in c for files in world["dirs"] for rel, c in files.items() if rel.endswith(".pth")):
+        # a relative line in a .pth file (known finding C14-KF6: resolved against the working directory)
+        tags.append("relative-pth-line")
     names = list(plan.get("sp_names") or [])
     names += [f"sp{i}" for i in range(len(names), len(world["dirs"]))]
     nest = plan.get("nest")
@@ -650,6 +681,14 @@ def execute(plan, ctx):
                 seam = ListingSeam(w.root, ld["schedule"], None)
                 form = ld["form"]
                 spec = target
+                if form == "cwdfile":
+                    # by name, with the default try_relative_path, from a directory holding a plain file of that name
+                    holders = [sp for sp in sps if os.path.isfile(os.path.join(sp, target))]
+                    if holders:
+                        os.chdir(holders[0])
+                        ctx.probe("request-by-name-next-to-a-plain-file-of-that-name")
+                    else:
+                        form = "name"
                 if form in ("path", "strpath", "relstr"):
                     cand = [os.path.join(sp, target) for sp in sps if os.path.isdir(os.path.join(sp, target))]
                     if not cand:
@@ -671,20 +710,20 @@ def execute(plan, ctx):
                                 other = plan.get("other_top", "nothing_here")
                                 if other == "<same>":
                                     # the same package was requested before, without its sub-modules
-                                    loader.load(spec, try_relative_path=form in ("strpath", "relstr"), submodules=False, find_stubs_package=bool(plan["cfg"].get("stubs_pkg")))
+                                    loader.load(spec, try_relative_path=form in ("strpath", "relstr", "cwdfile"), submodules=False, find_stubs_package=bool(plan["cfg"].get("stubs_pkg")))
                                     other = "nothing_here"
                                 cand_other = [os.path.join(sp, other) for sp in sps if os.path.isdir(os.path.join(sp, other))]
-                                loader.load(Path(cand_other[0]) if cand_other and form != "name" else other, try_relative_path=form in ("strpath", "relstr"))
+                                loader.load(Path(cand_other[0]) if cand_other and form != "name" else other, try_relative_path=form in ("strpath", "relstr", "cwdfile"))
                             except (ImportError, griffe.LoadingError):
                                 pass
-                            top = loader.load(spec, try_relative_path=form in ("strpath", "relstr"), find_stubs_package=bool(plan["cfg"].get("stubs_pkg")))
+                            top = loader.load(spec, try_relative_path=form in ("strpath", "relstr", "cwdfile"), find_stubs_package=bool(plan["cfg"].get("stubs_pkg")))
                             ctx.probe("loader-reused-for-second-package")
                         else:
                             top = griffe.load(
                                 spec,
                                 search_paths=sps,
                                 allow_inspection=plan["inspection"],
-                                try_relative_path=form in ("strpath", "relstr"),
+                                try_relative_path=form in ("strpath", "relstr", "cwdfile"),
                                 find_stubs_package=bool(plan["cfg"].get("stubs_pkg")),
                             )
                         tree = norm_tree(w, top)
@@ -852,7 +891,7 @@ class _Prop:
         "schedules (sorted, reversed, hashed permutations of every directory) x request by name / Path of the "
         "directory / string path. The first successful tree is compared with CPython's PathFinder/pkgutil view and "
         "all loads must give the same normalised tree. Non-trivial = some listing had a choice of order; distinct "
-        "= distinct (tree hash, outcome, number of loads). Also drawn per world: the order of the search paths (independent of the directory names), user-style directory names for them (prefix-related names, a space), non-existent / duplicate / plain-file search-path entries, editable-install .pth shapes, <top>-stubs packages with find_stubs_package, a relative-string request form, reuse of a loader that already served another request, dotted and hidden directories, several spellings of pkgutil/pkg_resources namespace declarations; 1.5 % of worlds cross-check the oracle against a real import in a pristine interpreter. Round r: plain files named like the package, top-level directories holding only stubs, nested search paths (root and root/src), namespace declarations below licence headers of up to 70,000 characters. Round k: a second copy of the target package outside the search path, requested by its path from a loader that already served the installed copy (reference: CPython with that directory put in front)."
+        "= distinct (tree hash, outcome, number of loads). Also drawn per world: the order of the search paths (independent of the directory names), user-style directory names for them (prefix-related names, a space), non-existent / duplicate / plain-file search-path entries, editable-install .pth shapes, <top>-stubs packages with find_stubs_package, a relative-string request form, reuse of a loader that already served another request, dotted and hidden directories, several spellings of pkgutil/pkg_resources namespace declarations; 1.5 % of worlds cross-check the oracle against a real import in a pristine interpreter. Round s: sources with a UTF-8 byte order mark, relative .pth lines, directories named *.pth, requests by name from a directory holding a plain file of that name. Round r: plain files named like the package, top-level directories holding only stubs, nested search paths (root and root/src), namespace declarations below licence headers of up to 70,000 characters. Round k: a second copy of the target package outside the search path, requested by its path from a loader that already served the installed copy (reference: CPython with that directory put in front)."
     )
     COMPONENTS = {
         "real": ["_griffe.finder", "_griffe.loader", "_griffe.agents.visitor", "_griffe.merger", "_griffe.models", "CPython importlib.machinery.PathFinder / pkgutil (oracle, unperturbed)", "real files on tmpfs"],
